@@ -579,6 +579,15 @@ func (m *Monitors) onCommit(n *Node, nm *nodeMon, e *spi.Event) {
 		m.decided[e.H] = e.Hash
 		m.decidedBy[e.H] = n.Id
 	}
+	// a node that commits has broadcast its own COMMIT for that (view, hash): the peers that accepted the proposal rely on it
+	func() {
+		defer func() { recover() }()
+		br := protocol.BlockProofReader(e.Proof).BlockRef()
+		m.Stats["C05 own-commit broadcasts judged"]++
+		if nm.sentC[hv{e.H, uint64(br.View())}] != string(br.BlockHash()) {
+			m.violate("C05", "committed-without-broadcasting-its-own-commit", "node %s committed height %d with a certificate of view %d but never sent its own COMMIT for that view and block: peers that accepted the proposal and need its weight cannot commit", n.Id, e.H, uint64(br.View()))
+		}
+	}()
 	rec := &CommitRec{Block: e.Block, Proof: e.Proof, Seq: e.Seq}
 	n.Commits[e.H] = rec
 	if _, ok := w.Canon[e.H]; !ok {
